@@ -47,6 +47,9 @@ func init() {
 		"strings.TrimSpace":   inTrimSpace,
 		"strings.Cut":         inCut,
 		"strings.Repeat":      inRepeat,
+		"strings.TrimRight":   inTrimOpaqueOK,
+		"strings.TrimLeft":    inTrimOpaqueOK,
+		"strings.Trim":        inTrimOpaqueOK,
 		"internal/bytealg.IndexByteString": inIndexByte,
 		"internal/bytealg.CountString":     inCountByte,
 		"internal/stringslite.HasPrefix":   inHasPrefix,
@@ -1017,4 +1020,21 @@ func (c *Ctx) mergeAltsAny(in []Alt) Value {
 		return r
 	}
 	return c.mkUnion(append([]Alt(nil), in...))
+}
+
+// strings.Trim*/TrimRight/TrimLeft: only the opaque case is intrinsic (error texts being tidied for printing);
+// anything else runs the real code.
+func inTrimOpaqueOK(c *Ctx, st *State, fn *ssa.Function, args []Value) (*State, Value) {
+	if s, ok := args[0].(*Str); ok && s.opaque {
+		return st, s
+	}
+	saved := c.cfg.IntrinsicsOff
+	off := map[string]bool{}
+	for k, v := range saved {
+		off[k] = v
+	}
+	off[fn.String()] = true
+	c.cfg.IntrinsicsOff = off
+	defer func() { c.cfg.IntrinsicsOff = saved }()
+	return c.callFunction(st, fn, args)
 }
